@@ -8,6 +8,7 @@ from hypothesis import strategies as st
 from vp.core import Case, Sub, V
 from vp import matchers as ML
 from vp.results import Ext
+from vp.fuzz import fuzz_custom
 
 PROPERTY = "C07"
 RULE = ("(1) every matcher expression of the C06 language (all stock matchers) x values of its domain: str(matcher) "
@@ -504,4 +505,6 @@ def subchecks(tier):
         Sub("text_repr_roundtrip", run_text_repr, TEXT_REPR, 5000 if q else 500000),
         Sub("assert_expect_bodies", run_body, s_body(), 800 if q else 40000),
         Sub("every_public_matcher_str", run_public, custom=custom_all_matchers),
+        Sub("text_repr_fuzz", run_text_repr, custom=fuzz_custom("props.c07", "text_repr_roundtrip", "testtools.compat", 40000),
+            note="atheris/libFuzzer coverage-guided campaign over the text_repr round trip (thorough tier only)"),
     ]
